@@ -232,6 +232,7 @@ func (*parser).addBlockParser
   ensures [freeNew] forall k int {p.freeBlockParsers[k]} :: (old(len(p.freeBlockParsers)) <= k && k < len(p.freeBlockParsers)) ==> p.freeBlockParsers[k] == v.Value
   loop 1 inv bpSep(p) && trigKept(p) && freeKept(p)
   loop 1 inv bp == v.Value && sameslice(p.freeBlockParsers, old(p.freeBlockParsers))
+  ensures [growFree] len(p.freeBlockParsers) <= old(len(p.freeBlockParsers)) + 1
 
 // Parse's Once closure: components are added in ascending priority (ghost logs of the add* calls), and afterwards every
 // non-empty trigger list ends with the trigger-less block parsers, in their own (ascending) order
